@@ -288,7 +288,10 @@ func verifPumpHistory() {
 	// already at its RDY limit (RDY 1, one message outstanding)
 	start := verifrt.Choice("start", 3)
 	if start == 1 {
+		// paused while this consumer is not yet on the channel: it joins a paused channel
+		st.c.RemoveClient(cl.ID)
 		st.c.Pause()
+		st.c.AddClient(cl.ID, cl)
 	}
 	cl.Channel = st.c
 	cl.State = stateSubscribed
